@@ -169,16 +169,23 @@ def run(ctx) -> None:
     # the per-pattern line search is a generator of its own in the pinned tree; merged into iter_matches it is the inner loop
     merged = not prog.has_function("parse._iter_for_pattern")
     ifp = im if merged else prog.function("parse._iter_for_pattern")
-    ho = prog.function("parse._has_overlap")
-    ctx.visit(im.fq, ifp.fq, ho.fq)
+    # the overlap test is a helper of its own in the pinned tree; inlined into iter_matches it is decided by evaluating iter_matches
+    ho = prog.function("parse._has_overlap") if prog.has_function("parse._has_overlap") else None
+    ctx.visit(im.fq, ifp.fq, *([ho.fq] if ho else []))
+    im_evaluated = None if merged else iter_matches_eval(ctx, "R3")
+    if ho is None:
+        ctx.require(im_evaluated is not None, "parse._has_overlap is gone and parse.iter_matches cannot be evaluated")
+        overlap_order_types_eval(ctx, "R3")
     for fn in ((im,) if merged else (im, ifp)):
+        if fn is im and im_evaluated is not None:
+            continue          # which matches are yielded is decided by the evaluation (several matches per pattern, several patterns)
         bad = [n for n in walk_no_nested(fn.node) if isinstance(n, (ast.Break, ast.Return)) and not (isinstance(n, ast.Return) and n.value is None and False)]
         ctx.check("R3", not bad, f"{fn.fq}: no break / early return in the enumeration",
                   f"{fn.fq}: enumeration can stop early", f"{[unparse(b) for b in bad]}", loc=fn.loc(bad[0]) if bad else fn.loc())
         ctx.check("R3", fn.is_generator, f"{fn.fq} yields its matches", f"{fn.fq}: no longer a generator", "", loc=fn.loc())
     loops = [n for n in walk_no_nested(im.node) if isinstance(n, ast.For)]
-    ctx.require(len(loops) == 2, "parse.iter_matches loop nest changed")
-    outer, inner = sorted(loops, key=lambda l: l.lineno)
+    ctx.require(len(loops) == 2 or (im_evaluated is not None and len(loops) >= 2), "parse.iter_matches loop nest changed")
+    outer, inner = sorted(loops, key=lambda l: l.lineno)[:2]
     ctx.check("R3", unparse(outer.iter) == im.params[1], f"iter_matches: outer loop over all of `{im.params[1]}`",
               "parse.iter_matches: not all patterns are enumerated", f"`for ... in {unparse(outer.iter)}`", loc=im.loc(outer))
     if merged:
@@ -229,7 +236,7 @@ def run(ctx) -> None:
                   "parse._iter_for_pattern: matches are dropped (or empty matches kept) by the per-line test",
                   f"yields when {yc.to_dnf()}; required: <search result> & <matched text non-empty>: e.g. with `> 1` a one-character occurrence (MAJOR `1`) is never rewritten", loc=ifp.loc(iys[0]))
     # yield only suppressed by overlap: decided by evaluation when the body can be evaluated (helper form)
-    if not merged and iter_matches_eval(ctx, "R3") is not None:
+    if im_evaluated is not None:
         ys = []
     else:
         ys = [n for n in ast.walk(inner) if isinstance(n, ast.Yield)]
@@ -265,6 +272,16 @@ def run(ctx) -> None:
                   "parse.iter_matches: matches are suppressed by something other than the overlap test",
                   f"yield condition: {ycond.to_dnf()}", loc=im.loc(ys[0]))
     # overlap predicate
+    if ho is not None:
+        overlap_predicate_rule(ctx, ho)
+
+    # ---------------------------------------------------------------- R4 (placeholder expansion)
+    placeholder_rules(ctx)
+    return
+
+
+def overlap_predicate_rule(ctx, ho) -> None:
+    prog, cfgs = ctx.prog, ctx.cfgs
     rets = [n for n in ast.walk(ho.node) if isinstance(n, ast.Return) and isinstance(n.value, ast.Constant) and n.value.value is True]
     needle = ho.params[0]
     any_form = None
@@ -326,6 +343,10 @@ def run(ctx) -> None:
               f"extracted {ov.to_dnf()}; differs for {wrong}: e.g. a later match that fully contains an earlier one is not recognised as overlapping, "
               f"both replacements are applied and text outside the matches is eaten" if wrong else "", loc=ho.loc(test_expr), witness=wrong)
 
+
+
+def placeholder_rules(ctx) -> None:
+    prog, cfgs = ctx.prog, ctx.cfgs
     # ---------------------------------------------------------------- R4 (placeholder expansion)
     np_fn = prog.function("v2patterns.normalize_pattern")
     ctx.visit(np_fn.fq)
@@ -837,6 +858,58 @@ def line_search_fold(ctx, ifp) -> T.Optional[T.List[str]]:
     except (CannotFold, TypeError, AttributeError, KeyError, ValueError, IndexError):
         return None
     return wrong
+
+
+def overlap_order_types_eval(ctx, rule: str) -> None:
+    """The overlap test inlined into parse.iter_matches: iter_matches is evaluated with two patterns of one match each, for
+    every order type of the four endpoints (values 0..3) on the same and on different lines; the second match is yielded iff it
+    is on another line or its closed span does not meet the first one's."""
+    import itertools
+    import types
+    from sa.model import Abstract, CannotFold, EvalError
+    prog = ctx.prog
+    im = prog.function("parse.iter_matches")
+
+    class M(Abstract):
+        def __init__(self, name: str, lineno: int, span: T.Tuple[int, int]):
+            self.name, self.lineno, self.span = name, lineno, span
+            self.line, self.match, self.pattern = f"line{lineno}", name, None
+
+    def linespan(f: T.Any, node: ast.Call) -> T.Any:
+        vals: T.List[T.Any] = []
+        for a in node.args:
+            vals.extend(f(a.value)) if isinstance(a, ast.Starred) else vals.append(f(a))
+        d = dict(zip(["lineno", "start", "end"], vals))
+        d.update({k.arg: f(k.value) for k in node.keywords if k.arg})
+        return types.SimpleNamespace(**d)
+    wrong = None
+    n_cases = 0
+    try:
+        for ns, ne, ss, se in itertools.product(range(4), repeat=4):
+            if ns > ne or ss > se:
+                continue
+            for same in (True, False):
+                plan = {"P0": [M("first", 7, (ss, se))], "P1": [M("second", 7 if same else 8, (ns, ne))]}
+
+                def ifp(f: T.Any, node: ast.Call, plan: T.Dict[str, T.List[M]] = plan) -> T.List[M]:
+                    pat = f(node.args[1]) if len(node.args) > 1 else f([k.value for k in node.keywords if k.arg == "pattern"][0])
+                    return list(plan[pat])
+                env = {im.params[0]: ["l"] * 9, im.params[1]: ["P0", "P1"], "__strict__": True, "__calls__": True, "__stubs__": {"_iter_for_pattern": ifp, "LineSpan": linespan}}
+                try:
+                    _ret, ys = prog.run_body(im, env)
+                    got = [getattr(y, "name", y) for y in ys]
+                except EvalError as ex:
+                    got = [f"raises: {ex}"]
+                want = ["first"] + ([] if same and ns <= se and ne >= ss else ["second"])
+                n_cases += 1
+                if got != want and wrong is None:
+                    wrong = {"first": (ss, se), "second": (ns, ne), "same line": same, "yielded": got, "expected": want}
+    except (CannotFold, TypeError, AttributeError, KeyError, ValueError, IndexError) as ex:
+        raise AnalysisError(f"C03/R3: the inlined overlap test of parse.iter_matches cannot be evaluated ({type(ex).__name__}: {str(ex)[:80]})")
+    ctx.check(rule, wrong is None, f"iter_matches (inlined overlap test): a match is suppressed iff same line and the closed intervals intersect  [{n_cases} order types evaluated]",
+              "parse._has_overlap: predicate is not 'same line and intervals intersect'",
+              f"differs for {wrong}: e.g. a later match that fully contains an earlier one is not recognised as overlapping, both replacements are applied and text outside the matches is eaten"
+              if wrong else "", loc=im.loc(), witness=wrong)
 
 
 def iter_matches_eval(ctx, rule: str) -> T.Optional[bool]:
